@@ -17,7 +17,7 @@ func initMethodParameterNode() {
 			argTypeNode := args[2].MustReference().(ast.TypeNode)
 
 			var argInitialiser ast.ExpressionNode
-			if !args[3].IsUndefined() {
+			if !args[3].IsUndefined() && !args[3].IsNil() {
 				argInitialiser = args[3].MustReference().(ast.ExpressionNode)
 			}
 
